@@ -27,9 +27,9 @@ Definition fits_in_pe (data data_size pointer size : Z) : bool :=
 Definition fits_in_dex (data data_size pointer size : Z) : bool :=
   (if (if (u_le (u_cast 64 size) data_size) then (u_ge pointer data) else false) then (u_le pointer (p_sub 1 (p_add 1 data data_size) size)) else false).
 
-(* static bool is_valid_ptr( const void* base, size_t size, const void* ptr, uint64_t ptr_size) { return ptr >= base && ptr_size <= size && ((char* ) ptr) + ptr_size <= ((char* ) base) + size; } *)
+(* static bool is_valid_ptr( const void* base, size_t size, const void* ptr, uint64_t ptr_size) { return ptr >= base && ptr_size <= size && (size_t) (((const char* ) ptr) - ((const char* ) base)) <= size - ptr_size; } *)
 Definition is_valid_ptr (base size ptr ptr_size : Z) : bool :=
-  (if (if (u_ge ptr base) then (u_le ptr_size size) else false) then (u_le (p_add 1 ptr ptr_size) (p_add 1 base size)) else false).
+  (if (if (u_ge ptr base) then (u_le ptr_size size) else false) then (u_le (u_cast 64 (u_sub 64 ptr base)) (u_sub 64 size ptr_size)) else false).
 
 (* load-command loop 1 of macho_parse_file continues past its guards (no `break`):
     if (data + size < command + sizeof(yr_load_command_t)) break; if (size - parsed_size < command_struct.cmdsize) break; if (command_struct.cmdsize < sizeof(yr_load_command_t)) break;  *)
